@@ -314,7 +314,12 @@ def eval_single(spec):
     if eq1 is not True or eq2 is not True or ne1 is not False:
         fails.append(("eq:reparsed-text-not-equal:%s" % fam,
                       {"notation": show(spec), "printed": txt, "reparsed": list(observe(b)), "original": list(got), "b==a,a==b,b!=a": [eq1, eq2, ne1]}))
-    if hash(a) != hash(b):
+    try:
+        ha, hb = hash(a), hash(b)
+    except Exception as err:
+        fails.append(("hash:raises:%s" % fam, {"notation": show(spec), "printed": txt, "error": repr(err)}))
+        return "ok:%s->%s:hash-raises" % (d.shape, print_family(txt)), fails, v
+    if ha != hb:
         fails.append(("hash:differs-after-reparse:%s" % fam, {"notation": show(spec), "printed": txt}))
     return "ok:%s->%s" % (d.shape, print_family(txt)), fails, v
 
@@ -750,7 +755,11 @@ def eval_pair(si, ki, a, sj, kj, b):
         fails.append(("eq:equal-although-%s-differs" % "+".join(differs), ctx))
     if same and not e:
         fails.append(("eq:unequal-spellings-of-one-address", ctx))
-    ha, hb = hash(a), hash(b)
+    try:
+        ha, hb = hash(a), hash(b)
+    except Exception as err:
+        fails.append(("hash:raises", dict(ctx, error=repr(err))))
+        return e, fails
     if same and ha != hb:
         fails.append(("hash:differs-between-spellings-of-one-address", dict(ctx, hashes=[ha, hb])))
     found = b in {a: 1}
@@ -833,9 +842,16 @@ def part_b(tier, acc, deadline):
     acc.info["part B triples decided on the matrix"] = triples
     # one dictionary holding the whole pool: one entry per reference class, every spelling finds its class
     table = {}
+    unhashable = 0
     for idx, (spec, key, obj) in enumerate(pool):
-        table.setdefault(obj, key)
+        try:
+            table.setdefault(obj, key)
+        except TypeError as err:
+            unhashable += 1
+            acc.fail("hash:raises", {"spelling": show(spec), "error": repr(err)}, {"part": "pair", "a": spec, "b": spec})
     acc.evaluations += n
+    if unhashable:
+        return
     if len(table) != len(classes):
         acc.fail("dict:pool-collapses-to-wrong-number-of-entries", {"entries": len(table), "reference_classes": len(classes)},
                  {"part": "table", "tier": tier})
